@@ -162,6 +162,11 @@ def _involved_tables(d):
     return {t.split(".")[-1] for t in out}
 
 
+def _values_alias(sql, table):
+    name = table.split(".")[-1]
+    return bool(name) and table.startswith("<default>.") and re.search(r"\(\s*values\b[^;]*?\)\s*(?:as\s+)?" + re.escape(name) + r"\b", sql, flags=re.S) is not None
+
+
 def _renamed(sql):
     from vlib.props import C18
 
@@ -176,6 +181,8 @@ KNOWN = {
     "K-rename-cols@C06": lambda case, sql, inv, d: "rename" in sql and inv in ("leaf", "root", "connect", "graph", "path")
     and ("one_node_path" in d or "rebuild_raised" in d or bool(_involved_tables(d) & _renamed(sql))),
     "K-lateral-alias@C06": lambda case, sql, inv, d: "lateral view" in sql and inv == "root",
+    # the alias of a VALUES derived table is taken for a table
+    "K-values-alias@C06": lambda case, sql, inv, d: inv == "root" and _values_alias(sql, d.get("root_table_not_read_by_script", "")),
     # the nested analysis of a scalar subquery returns bare qualifiers: a schema-qualified table (or a 3-part column reference) inside it
     # comes back as <default>.<table> or <default>.<schema>
     "K-scalar-subquery-schema@C06": lambda case, sql, inv, d: inv == "root" and d.get("root_table_not_read_by_script", "").startswith("<default>.")
